@@ -106,7 +106,7 @@ Section Walk.
   Variable strat : strategy.
   Variable nconns : nat.
   Variable tgt : nat -> N.
-  Notation step := (step strat false nconns tgt).   (* the real code *)
+  Notation step := (step strat false false nconns tgt).   (* the real code *)
 
   Fixpoint send_all (fuel : nat) (s : state) : state * bool :=   (* bool: finished *)
     match rpc s with
@@ -207,9 +207,25 @@ Section Walk.
     end.
 
   (* obs: what IsOK() / AverageRoundTrip() of the connections currently answer *)
+  (* the real Run loop left alone until the update buffer is empty: every queued update is
+     taken and notified in turn; a publisher waiting for buffer space gets in meanwhile *)
+  Fixpoint drain_loop (fuel : nat) (s : state) (ps : list pend_op) (acc : list sx)
+    : state * list pend_op * list sx :=
+    match fuel with
+    | O => (s, ps, acc)
+    | S f =>
+        match step s LTake with
+        | None => (s, ps, acc)
+        | Some s1 =>
+            let '(s2, _) := advance s1 [MRLock; MSendAll; MLabel LRUnlock] in
+            let '(s3, ps3, outs) := settle (S (S (List.length ps))) s2 ps in
+            drain_loop f s3 ps3 (acc ++ outs)
+        end
+    end.
+
   Definition do_op (i : nat) (nw : nat) (o : sx) (obs : list (bool * Z)) (s : state) (ps : list pend_op)
-    : sx * list (bool * Z) * state * list pend_op :=
-    let ret (x : sx * state * list pend_op) := let '(r, s1, ps1) := x in (r, obs, s1, ps1) in
+    : sx * list (bool * Z) * state * list pend_op * list sx :=
+    let ret (x : sx * state * list pend_op) := let '(r, s1, ps1) := x in (r, obs, s1, ps1, @nil sx) in
     match o with
     | SL (SA nm :: args) =>
       let is x := String.eqb nm x in
@@ -222,8 +238,12 @@ Section Walk.
             | Some s1 =>
                 let u := match rpc s1 with RWantR u => u | _ => (0, 0%N) end in
                 let '(r, s2, ps2) := launch i GRun [MRLock; MSendAll; MLabel LRUnlock] KDone (SA "blocked") s1 ps in
-                (SL [r; sx_nat (fst u); SN (snd u)], obs, s2, ps2)
+                (SL [r; sx_nat (fst u); SN (snd u)], obs, s2, ps2, [])
             end
+          else if is "drain" then
+            if busy ps GRun then ret (SA "busy", s, ps) else
+            let '(s1, ps1, outs) := drain_loop 64 s ps [] in
+            (SA "done", obs, s1, ps1, outs)
           else if is "tick" then
             if busy ps GRun then ret (SA "busy", s, ps) else
             ret (launch i GRun [MLabel LTick; MLabel LUpdLock; MLabel (LUpdDone obs)] KBest (SA "blocked") s ps)
@@ -269,7 +289,7 @@ Section Walk.
             ret (launch i (GConn c) [MLabel (LSetHead c h); MPublish (c, h)] KDone (SA "blocked") s ps)
           else ret (sx_err "op2", s, ps)
       | [SN a1; SB al; SZ r] =>
-          if is "conn" then (SA "done", set_nth_obs (small a1) (al, r) obs, s, ps)
+          if is "conn" then (SA "done", set_nth_obs (small a1) (al, r) obs, s, ps, [])
           else ret (sx_err "op3", s, ps)
       | _ => ret (sx_err "op args", s, ps)
       end
@@ -291,9 +311,9 @@ Section Walk.
     match ops with
     | [] => []
     | o :: t =>
-        let '(r, obs1, s1, ps1) := do_op i nw o obs s ps in
+        let '(r, obs1, s1, ps1, extra) := do_op i nw o obs s ps in
         let '(s2, ps2, outs) := settle (S (S (List.length ps1))) s1 ps1 in
-        SL [r; SL (sort_by_index outs)] :: run_ops (S i) nw t obs1 s2 ps2
+        SL [r; SL (sort_by_index (extra ++ outs))] :: run_ops (S i) nw t obs1 s2 ps2
     end.
 
   (** the real WaitMasterchainSeqno under the real Run loop, one waiter (index 0):
@@ -328,6 +348,20 @@ Section Walk.
     let s2 := steps s0 (subscribe_steps 0) in
     let s3 := fold_left (fun s ch => deliver 1 s (fst ch) (snd ch)) heads s2 in
     verdict (steps s3 (return_steps 0 fin)) 0.
+
+  (* all heads are published while Run is not scheduled; then Run handles the queue *)
+  Definition handle_one (nw : nat) (s : state) : state :=
+    let s3 := try_step s LTake in
+    let s4 := try_step s3 (LRLock (map snd (wl s3))) in
+    let s5 := fst (send_all 8 s4) in
+    let s6 := try_step s5 LRUnlock in
+    steps s6 (map LRecv (seq 0 nw)).
+
+  Definition wait_batch_scenario (s0 : state) (heads : list (nat * N)) (fin : wres) : sx :=
+    let s2 := steps s0 (subscribe_steps 0) in
+    let s3 := fold_left (fun s ch => steps s [LSetHead (fst ch) (snd ch); LPublish 0]) heads s2 in
+    let s4 := fold_left (fun s _ => handle_one 1 s) heads s3 in
+    verdict (steps s4 (return_steps 0 fin)) 0.
 
   (* caller 0 first; then caller 1 (if it is satisfied at once it returns - running its
      deferred unsubscribe - before anything else happens); then the heads; then timeouts *)
@@ -381,11 +415,37 @@ Definition run_wait2 (a : sx) : sx :=
 Definition run_wait (a : sx) : sx :=
   match a with
   | SL [SN _; SN _; SN _; SL _] => run_wait2 a
+  | SL [SN tg; SN h0; SL hs; SB cancel; SA _] =>
+      wait_batch_scenario BestPing 2 (fun _ => tg)
+        (init_state (fun c => if Nat.eqb c 0 then h0 else 0%N) (Some 0))
+        (heads_of hs) (if cancel then RCancel else RTimeout)
   | SL [SN tg; SN h0; SL hs; SB cancel] =>
       wait_scenario BestPing 2 (fun _ => tg)
         (init_state (fun c => if Nat.eqb c 0 then h0 else 0%N) (Some 0))
         (heads_of hs) (if cancel then RCancel else RTimeout)
   | _ => sx_err "wait args"
+  end.
+
+(* (strategy (arrival id ...) ((alive seqno rtt) per id 0,1,2,...)): the pool built by addConnection
+   in that arrival order -> ((pool order) bestConn-after-init choice-after-updateBest), all as ids *)
+Fixpoint ids_of (l : list sx) : list nat :=
+  match l with SN i :: t => N.to_nat (N.min i 64) :: ids_of t | _ => [] end.
+Fixpoint index_in (x : nat) (l : list nat) (i : nat) : option nat :=
+  match l with [] => None | y :: t => if Nat.eqb x y then Some i else index_in x t (S i) end.
+Definition run_add (a : sx) : sx :=
+  match a with
+  | SL [SN st; SL arr; SL obs] =>
+      match conns_of obs with
+      | Some ob =>
+          let arrival := ids_of arr in
+          let ids := add_all arrival in
+          let cs := map (fun id => nth id ob (mkConn false 0 0)) ids in
+          let prev := match best_after_add arrival with Some b => index_in b ids 0 | None => None end in
+          let id_of (r : option nat) := match r with Some i => sx_nat (nth i ids 0) | None => SA "none" end in
+          SL [SL (map sx_nat ids); id_of prev; id_of (update_best (strat_of st) cs prev)]
+      | None => sx_err "add args"
+      end
+  | _ => sx_err "add"
   end.
 
 (* deterministic reproductions of the repaired defects: the model has none *)
@@ -397,5 +457,6 @@ Definition run (name : string) (a : sx) : sx :=
   else if is "c13.ubx" then run_ubx a
   else if is "c13.walk" then run_walk a
   else if is "c13.wait" then run_wait a
+  else if is "c13.add" then run_add a
   else if is "c13.repro" then run_repro a
   else sx_err "unknown case kind".
